@@ -80,7 +80,7 @@ type script struct {
 func genScript(r *rand.Rand, id string, quick bool) script {
 	pick := func(v ...int) int { return v[r.Intn(len(v))] }
 	s := script{ID: id, Cfg: config{
-		InBuf: pick(1, 2, 4), RetryBuf: pick(1, 2, 4), InW: pick(1, 1, 2), RetryW: pick(1, 1, 2),
+		InBuf: pick(1, 2, 4), RetryBuf: pick(1, 1, 1, 2, 4), InW: pick(1, 1, 2), RetryW: pick(1, 1, 1, 2),
 		FaultPct: pick(30, 50, 70, 90), SlowMs: pick(0, 0, 2, 8),
 	}}
 	nl := 3 + r.Intn(3)
@@ -107,7 +107,18 @@ func genScript(r *rand.Rand, id string, quick bool) script {
 			case x < 5:
 				n++
 				o := op{Op: "add", DelayMs: pick(0, 0, 0, 25)}
-				if r.Intn(2) == 0 {
+				if y := r.Intn(6); y < 2 {
+					// the same blob name written back under two namespaces (two
+					// different tasks; the executor fails them independently)
+					o.Kind, o.B = "wb", fmt.Sprintf("shared-%s-%d", id, n)
+					p := r.Perm(3)
+					for _, ns := range p[:2] {
+						o.A = fmt.Sprintf("ns%d", ns)
+						l.Ops = append(l.Ops, o)
+						recent = append(recent, o)
+					}
+					continue
+				} else if y < 4 {
 					o.Kind, o.A, o.B = "wb", fmt.Sprintf("ns%d", r.Intn(3)), fmt.Sprintf("blob-%s-%d", id, n)
 				} else {
 					o.Kind, o.A, o.B = "tr", fmt.Sprintf("repo/img-%s:%d", id, n), []string{"remote-a:80", "remote-b:80"}[r.Intn(2)]
@@ -148,6 +159,7 @@ type mgrState struct {
 	QRetry   int      `json:"q_retry"`
 	Workers  int      `json:"workers"`
 	Inflight []string `json:"inflight"`
+	Polls    int      `json:"polls"`
 	Err      string   `json:"err,omitempty"`
 }
 
@@ -264,6 +276,7 @@ type runner struct {
 	lost                map[string]bool // tasks already reported as lost
 	killsWithUnfinished int
 	structural          map[string]bool // pending-at-startup keys of the current life flagged as unschedulable
+	orphan              map[string]*orphanObs
 	lifeStartLine       int
 }
 
@@ -354,10 +367,14 @@ const killSet = "write,pwrite64,fsync,fdatasync,unlink,unlinkat,ftruncate,rename
 
 func (r *runner) start(li int, l *life, final bool) (*proc.Child, reply, error) {
 	c := r.sc.Cfg
+	slow := c.SlowMs
+	if final && slow < 5 {
+		slow = 5 // keep the retry worker busy so that the retry queue overflows when many tasks are due together
+	}
 	args := []string{"-dir", r.dir, "-seed", fmt.Sprint(r.seed),
 		"-in-buf", fmt.Sprint(c.InBuf), "-retry-buf", fmt.Sprint(c.RetryBuf),
 		"-in-workers", fmt.Sprint(c.InW), "-retry-workers", fmt.Sprint(c.RetryW),
-		"-slow-ms", fmt.Sprint(c.SlowMs), "-poll-ms", "20", "-retry-ms", "30"}
+		"-slow-ms", fmt.Sprint(slow), "-poll-ms", "20", "-retry-ms", "30"}
 	o := proc.Opts{Dir: r.dir}
 	if final {
 		args = append(args, "-fault-pct", "0", "-gate", "open")
@@ -556,6 +573,13 @@ func (r *runner) execute() (expired string, pendingSet []string) {
 			return "", nil
 		}
 		r.checkNeverLost(rowsOf(rep), "final life, in-life dump")
+		if orphans := r.orphanWatch(rep); len(orphans) > 0 {
+			run.Violation("pending-task-orphaned-outside-queues/"+kindOf(orphans[0]), r.sc.ID, r.witness(map[string]interface{}{
+				"orphaned_tasks": orphans, "state": rep, "poll_rounds_observed": orphanPollRounds,
+				"why": fmt.Sprintf("with the executor healthy and the gate open these rows stayed 'pending' while both queues were empty and no execution was in flight "+
+					"in every dump over %d poll rounds of the manager, without a new attempt: the poller only re-reads failed rows, so nothing in this process will run them", orphanPollRounds)}))
+			return "", nil
+		}
 		u := r.unfinished()
 		if len(u) == 0 {
 			break
@@ -619,6 +643,59 @@ func (r *runner) execute() (expired string, pendingSet []string) {
 		}
 	}
 	return "", nil
+}
+
+// orphanPollRounds is K: the number of the manager's own poll rounds (GetFailed
+// calls, counted in the child) over which the orphan condition must hold.
+const orphanPollRounds = 12
+
+type orphanObs struct {
+	polls0   int // poll counter when the condition was first seen
+	attempts int // attempts of the task at that moment
+}
+
+// orphanWatch implements the logical "can never run again" verdict for the
+// final (fault-free, gate open) life: a row that is pending while the queues of
+// its manager are empty and nothing is in flight, in every dump over K poll
+// rounds and without a new attempt, is outside every path that leads to an
+// execution (queues are fed by Add and by the poller, and the poller only
+// reads failed rows). Progress is measured in the manager's own poll rounds,
+// never in wall-clock time.
+func (r *runner) orphanWatch(rep reply) []string {
+	if r.orphan == nil {
+		r.orphan = map[string]*orphanObs{}
+	}
+	att, _, _ := readLog(r.dir)
+	count := map[string]int{}
+	for _, a := range att {
+		count[a.Key]++
+	}
+	var out []string
+	seen := map[string]bool{}
+	for _, st := range []mgrState{rep.WB, rep.TR} {
+		idle := st.QIn == 0 && st.QRetry == 0 && len(st.Inflight) == 0
+		for _, x := range st.Rows {
+			if x.Status != "pending" || !idle {
+				continue
+			}
+			seen[x.Key] = true
+			o := r.orphan[x.Key]
+			if o == nil || o.attempts != count[x.Key] {
+				r.orphan[x.Key] = &orphanObs{polls0: st.Polls, attempts: count[x.Key]}
+				continue
+			}
+			if st.Polls-o.polls0 >= orphanPollRounds {
+				out = append(out, x.Key)
+			}
+		}
+	}
+	for k := range r.orphan {
+		if !seen[k] {
+			delete(r.orphan, k) // condition interrupted: start over
+		}
+	}
+	sort.Strings(out)
+	return out
 }
 
 func stderrOf(c *proc.Child) string {
